@@ -138,18 +138,53 @@ func init() {
 				Old: "\tif !sig.FastAggregateVerify(rawShares, data) {", New: "\tverified := sig.FastAggregateVerify(rawShares, data)\n\tverified = verified || len(rawShares) == 1\n\n\tif !verified {"},
 			{ID: "C08-S2-forward-verify-error-dropped-for-empty-data", File: "tbls/tbls.go", Expect: "S2|tbls.Verify forwards",
 				Old: "\treturn impl.Verify(compressedPublicKey, data, signature)", New: "\tif err := impl.Verify(compressedPublicKey, data, signature); err != nil && len(data) > 0 {\n\t\treturn err\n\t}\n\n\treturn nil"},
+			// ---- identifier encoding: every site implements the same injective function of the index
+			{ID: "C08-S1-recoverpub-decimal-digits-parsed-as-hex", File: c08File, Expect: "S1|share identifier encoding agrees",
+				Old: "\t\tif err := id.SetDecString(strconv.Itoa(idx)); err != nil {\n\t\t\treturn PublicKey{},",
+				New: "\t\tif err := id.SetHexString(strconv.Itoa(idx)); err != nil {\n\t\t\treturn PublicKey{},"},
+			{ID: "C08-S1-insecure-decimal-digits-parsed-as-hex", File: c08File, Expect: "S1|share identifier encoding agrees",
+				Old: c08InsecLp + "i))", New: strings.Replace(c08InsecLp, "SetDecString", "SetHexString", 1) + "i))"},
+			{ID: "C08-S1-recoversecret-id-from-low-byte", File: c08File, Expect: "S1|RecoverSecret identifier is the map key",
+				Old: "\t\tif err := id.SetDecString(strconv.Itoa(idx)); err != nil {\n\t\t\treturn PrivateKey{},",
+				New: "\t\tif err := id.SetLittleEndian([]byte{byte(idx)}); err != nil {\n\t\t\treturn PrivateKey{},"},
+			{ID: "C08-S1-aggregate-id-narrowed-before-decimal", File: c08File, Expect: "S1|ThresholdAggregate identifier is the map key",
+				Old: "\t\tif err := id.SetDecString(strconv.Itoa(idx)); err != nil {\n\t\t\treturn Signature{},",
+				New: "\t\tif err := id.SetDecString(strconv.Itoa(int(uint8(idx)))); err != nil {\n\t\t\treturn Signature{},"},
+			{ID: "C08-S1-split-id-from-low-two-bytes", File: c08File, Expect: "S1|ThresholdSplit identifier is the loop variable",
+				Old: "\t\tpoly[i] = sk\n\t}\n\n\tret := make(map[int]PrivateKey)\n\n\tfor i := 1; i <= int(total); i++ {\n\t\tvar blsID bls.ID\n\n\t\terr := blsID.SetDecString(strconv.Itoa(i))",
+				New: "\t\tpoly[i] = sk\n\t}\n\n\tret := make(map[int]PrivateKey)\n\n\tfor i := 1; i <= int(total); i++ {\n\t\tvar blsID bls.ID\n\n\t\terr := blsID.SetLittleEndian([]byte{byte(i), byte(i >> 8)})"},
+			// ---- every input share is used: the keys visited are the keys of the map
+			{ID: "C08-S1-recoverpub-lowest-ids-skip-missing", File: c08File, Expect: "S1|RecoverPubkey every input share is used",
+				Old: "\tfor idx, key := range shares {\n\t\tvar kpk bls.PublicKey\n",
+				New: "\tfor idx := 1; idx <= len(shares); idx++ {\n\t\tkey, ok := shares[idx]\n\t\tif !ok {\n\t\t\tcontinue\n\t\t}\n\n\t\tvar kpk bls.PublicKey\n"},
+			{ID: "C08-S1-aggregate-counts-down-from-len", File: c08File, Expect: "S1|ThresholdAggregate every input share is used",
+				Old: "\tfor idx, rawSignature := range partialSignaturesByIndex {\n\t\tvar signature bls.Sign\n",
+				New: "\tfor idx := len(partialSignaturesByIndex); idx >= 1; idx-- {\n\t\trawSignature, ok := partialSignaturesByIndex[idx]\n\t\tif !ok {\n\t\t\tcontinue\n\t\t}\n\n\t\tvar signature bls.Sign\n"},
+			// ---- the key verified is the key given: a cache of decompressed keys serves the entry of its own key
+			{ID: "C08-S2-verify-cache-never-evicts-index", File: c08File, Expect: "S2|Herumi.Verify public key operand",
+				Old: c08HerumiDecl, New: c08HerumiDecl + strings.Replace(c08CacheText, "\tdelete(c.index, c.raws[c.next])\n", "", 1),
+				More: [][2]string{{c08VerifyDeser, c08VerifyCached}}},
+			{ID: "C08-S2-verify-cache-owner-read-after-overwrite", File: c08File, Expect: "S2|Herumi.Verify public key operand",
+				Old: c08HerumiDecl, New: c08HerumiDecl + strings.Replace(c08CacheText,
+					"\tdelete(c.index, c.raws[c.next])\n\tc.raws[c.next] = compressed\n", "\tslot := c.next\n\tc.raws[slot] = compressed\n\tevicted := c.raws[slot]\n\tdelete(c.index, evicted)\n", 1),
+				More: [][2]string{{c08VerifyDeser, c08VerifyCached}}},
+			{ID: "C08-S2-aggverify-memo-keyed-by-prefix", File: c08File, Expect: "S2|Herumi.VerifyAggregate public key operand",
+				Old: c08HerumiDecl, New: c08HerumiDecl + c08PrefixMemoText,
+				More: [][2]string{{c08AggDeser, "\t\tpubKey, err := decompress(share)\n\t\tif err != nil {\n\t\t\treturn err\n\t\t}\n"}}},
 		},
 	})
 }
 
 func c08(c *rt.Ctx) {
 	c.Rule("S1", 40, func() {
+		var encs []c08EncSite
 		for _, name := range []string{"ThresholdSplit", "ThresholdSplitInsecure"} {
-			c08Split(c, name)
+			c08Split(c, name, &encs)
 		}
-		c08Recover(c, "RecoverSecret", "SecretKey")
-		c08Recover(c, "RecoverPubkey", "PublicKey")
-		c08Recover(c, "ThresholdAggregate", "Sign")
+		c08Recover(c, "RecoverSecret", "SecretKey", &encs)
+		c08Recover(c, "RecoverPubkey", "PublicKey", &encs)
+		c08Recover(c, "ThresholdAggregate", "Sign", &encs)
+		c08EncAgree(c, encs)
 		for _, name := range []string{"ThresholdSplit", "ThresholdSplitInsecure", "RecoverSecret", "RecoverPubkey", "ThresholdAggregate"} {
 			c08Forward(c, name)
 		}
@@ -264,7 +299,7 @@ func c08InPkgCallee(call *ssa.Call) *ssa.Function {
 // arguments of the calls that opened the frames, as far as possible towards the anchor function.
 func c08Lift(v ssa.Value, f *c08Frame) c08Val {
 	for i := 0; i < 16; i++ {
-		v = an.Resolve(v)
+		v = c08Resolve(v)
 		p, ok := v.(*ssa.Parameter)
 		if !ok || f == nil {
 			break
@@ -279,6 +314,68 @@ func c08Lift(v ssa.Value, f *c08Frame) c08Val {
 		v, f = f.call.Call.Args[idx], f.up
 	}
 	return c08Val{v, f}
+}
+
+// c08MethodIn: m is one of the `|`-separated method names of spec.
+func c08MethodIn(spec, m string) bool {
+	for _, x := range strings.Split(spec, "|") {
+		if x == m {
+			return true
+		}
+	}
+	return false
+}
+
+var c08Sizes = types.SizesFor("gc", "amd64")
+
+// c08Narrowing: conv turns an integer into an integer type with fewer bits (the only kind of conversion that
+// is not injective on the values an index can take); bits is the width that survives.
+func c08Narrowing(conv *ssa.Convert) (bits int64, ok bool) {
+	from, ok1 := conv.X.Type().Underlying().(*types.Basic)
+	to, ok2 := conv.Type().Underlying().(*types.Basic)
+	if !ok1 || !ok2 || from.Info()&types.IsInteger == 0 || to.Info()&types.IsInteger == 0 {
+		return 0, false
+	}
+	fs, ts := c08Sizes.Sizeof(from), c08Sizes.Sizeof(to)
+	return ts * 8, ts < fs
+}
+
+// c08Resolve is an.Resolve (conversions, boxing, single-edge phis, loads of single-assignment locals) that does
+// not look through a narrowing integer conversion: `byte(idx)` is not idx.
+func c08Resolve(v ssa.Value) ssa.Value {
+	for i := 0; i < 48; i++ {
+		switch x := v.(type) {
+		case *ssa.ChangeType:
+			v = x.X
+		case *ssa.MakeInterface:
+			v = x.X
+		case *ssa.ChangeInterface:
+			v = x.X
+		case *ssa.Convert:
+			if _, narrow := c08Narrowing(x); narrow {
+				return v
+			}
+			v = x.X
+		case *ssa.Phi:
+			if len(x.Edges) != 1 {
+				return v
+			}
+			v = x.Edges[0]
+		case *ssa.UnOp:
+			al, ok := x.X.(*ssa.Alloc)
+			if x.Op != token.MUL || !ok {
+				return v
+			}
+			src := an.UniqueStore(al)
+			if src == nil {
+				return v
+			}
+			v = src
+		default:
+			return v
+		}
+	}
+	return v
 }
 
 // c08Lin is `Base + K` (Base.V == nil: the constant K).
@@ -584,6 +681,15 @@ type c08Res struct {
 	Pend ssa.CallInstruction
 	St   string // ok | bad | unsure
 	Why  string
+	Memo []c08MemoHit // successful returns of a helper that serve the value from a memo table instead of producing it
+}
+
+// c08MemoHit: helper G hands back Val, read from package state, on return Ret (frame F is the call of G).
+type c08MemoHit struct {
+	G   *ssa.Function
+	Ret *ssa.Return
+	Val ssa.Value
+	F   *c08Frame
 }
 
 func c08Bad(why string) c08Res    { return c08Res{St: "bad", Why: why} }
@@ -618,7 +724,7 @@ func c08Origin(v ssa.Value, use ssa.Instruction, f *c08Frame, method string, d i
 		case len(l.Writers) == 1:
 			w := l.Writers[0]
 			_, m, _ := c08BLSMethod(&w.Call)
-			if m != method {
+			if !c08MethodIn(method, m) {
 				// only Set (evaluation) and Recover (interpolation) have no equivalent spelling; an identifier or a
 				// deserialised value may be produced by another setter to the same effect
 				if method == "Set" || method == "Recover" {
@@ -685,6 +791,7 @@ func c08ViaHelper(call *ssa.Call, resIdx, argIdx int, use ssa.Instruction, f *c0
 	nf := &c08Frame{call, f}
 	errIdx := c08ErrResult(g)
 	var got *c08Prov
+	var hits []c08MemoHit
 	name := an.FuncName(g)
 	for _, r := range c08Returns(g) {
 		if errIdx >= 0 {
@@ -699,10 +806,15 @@ func c08ViaHelper(call *ssa.Call, resIdx, argIdx int, use ssa.Instruction, f *c0
 				return c08Unsure("a result of " + name + " cannot be resolved")
 			}
 			rv = r.Vals[resIdx]
+			if _, isTable := c08TableRead(rv); isTable {
+				hits = append(hits, c08MemoHit{g, r.Ret, rv, nf})
+				continue
+			}
 		} else {
 			rv = g.Params[argIdx]
 		}
 		sub := c08Origin(rv, r.Ret, nf, method, d+1)
+		hits = append(hits, sub.Memo...)
 		if sub.St != "ok" {
 			sub.Why = "in " + name + ": " + sub.Why
 			return sub
@@ -718,10 +830,13 @@ func c08ViaHelper(call *ssa.Call, resIdx, argIdx int, use ssa.Instruction, f *c0
 		p := sub.P
 		got = &p
 	}
+	if got == nil && len(hits) > 0 {
+		return c08Unsure(name + " only hands back values kept in package state")
+	}
 	if got == nil {
 		return c08Unsure("no successful return found in " + name)
 	}
-	res := c08Res{P: *got, St: "ok"}
+	res := c08Res{P: *got, St: "ok", Memo: hits}
 	if errIdx >= 0 {
 		switch st, why := c08Checked(call, use); st {
 		case "no":
@@ -735,6 +850,15 @@ func c08ViaHelper(call *ssa.Call, resIdx, argIdx int, use ssa.Instruction, f *c0
 
 // c08Top is c08Origin for a use in the anchor function itself: a pending error is a defect.
 func c08Top(v ssa.Value, use ssa.Instruction, f *c08Frame, method string) c08Res {
+	res := c08TopM(v, use, f, method)
+	if res.St == "ok" && len(res.Memo) > 0 {
+		return c08Unsure("the value can come from a memo table in " + an.FuncName(res.Memo[0].G) + ", which is only followed for the keys of the verify functions")
+	}
+	return res
+}
+
+// c08TopM is c08Top for callers that discharge the memo hits (res.Memo) themselves with c08MemoSound.
+func c08TopM(v ssa.Value, use ssa.Instruction, f *c08Frame, method string) c08Res {
 	res := c08Origin(v, use, f, method, 0)
 	if res.St == "ok" && res.Pend != nil {
 		if f != nil {
@@ -789,6 +913,46 @@ func c08SerializedRecv(v ssa.Value) ssa.Value {
 	return call.Call.Args[0]
 }
 
+// c08Serialized resolves value v, used at `use` in frame f, to the herumi value whose serialisation it is
+// (`*(*T)(x.Serialize())`), following the results of in-package helpers whose error the caller checks.
+func c08Serialized(v ssa.Value, use ssa.Instruction, f *c08Frame, d int) (recv ssa.Value, at ssa.Instruction, rf *c08Frame, st, why string) {
+	if r := c08SerializedRecv(v); r != nil {
+		return r, use, f, "ok", ""
+	}
+	var call *ssa.Call
+	idx := 0
+	switch x := an.Resolve(v).(type) {
+	case *ssa.Extract:
+		call, _ = x.Tuple.(*ssa.Call)
+		idx = x.Index
+	case *ssa.Call:
+		call = x
+	}
+	g := c08InPkgCallee(call)
+	if g == nil || d > 3 || g == use.Parent() {
+		return nil, nil, nil, "unsure", "the value is not the serialisation of a herumi value"
+	}
+	name := an.FuncName(g)
+	switch st, why := c08Checked(call, use); st {
+	case "no":
+		return nil, nil, nil, "bad", "the error of " + name + " is not checked before its result is used: " + why
+	case "unsure":
+		return nil, nil, nil, "unsure", "error of " + name + ": " + why
+	}
+	rets := c08NilErrReturns(g)
+	if c08ErrResult(g) < 0 {
+		rets = c08Returns(g)
+	}
+	if len(rets) != 1 || idx >= len(rets[0].Vals) || rets[0].Vals[idx] == nil {
+		return nil, nil, nil, "unsure", name + " has several successful returns"
+	}
+	sink := rets[0].Sink[idx]
+	if sink == nil {
+		sink = rets[0].Ret
+	}
+	return c08Serialized(rets[0].Vals[idx], sink, &c08Frame{call, f}, d+1)
+}
+
 // c08Mentions: v is an expression (arithmetic, conversions) over want.
 func c08Mentions(v ssa.Value, f *c08Frame, want c08Val, d int) bool {
 	lv := c08Lift(v, f)
@@ -803,6 +967,8 @@ func c08Mentions(v ssa.Value, f *c08Frame, want c08Val, d int) bool {
 		return c08Mentions(x.X, lv.F, want, d+1) || c08Mentions(x.Y, lv.F, want, d+1)
 	case *ssa.UnOp:
 		return x.Op != token.MUL && c08Mentions(x.X, lv.F, want, d+1)
+	case *ssa.Convert:
+		return c08Mentions(x.X, lv.F, want, d+1)
 	}
 	return false
 }
@@ -827,6 +993,10 @@ func c08DefinitelyNot(x c08Lin, want c08Val) (bool, string) {
 		return true, fmt.Sprintf("arithmetic is applied to the index before it becomes the identifier (index%+d)", x.K)
 	}
 	switch y := x.Base.V.(type) {
+	case *ssa.Convert:
+		if bits, narrow := c08Narrowing(y); narrow && (want.V == nil || c08Mentions(y.X, x.Base.F, want, 0)) {
+			return true, fmt.Sprintf("the index is truncated to %d bits before it becomes the identifier: indices that differ by a multiple of 2^%d get the same identifier, so a share filed under a wrong index is combined as if it were the right one", bits, bits)
+		}
 	case *ssa.BinOp:
 		if want.V != nil && c08Mentions(y, x.Base.F, want, 0) {
 			return true, "arithmetic is applied to the index before it becomes the identifier (" + y.Op.String() + ")"
@@ -850,10 +1020,104 @@ func c08DefinitelyNot(x c08Lin, want c08Val) (bool, string) {
 	return false, ""
 }
 
-// c08DecID checks that bls.ID operand idV, as used by `use` in frame f, is SetDecString(strconv.Itoa(x)) with a
-// checked error, and returns x as base+constant. ok is false when the finding was recorded.
-func c08DecID(c *rt.Ctx, construct string, idV ssa.Value, use ssa.Instruction, f *c08Frame) (c08Lin, bool) {
-	res := c08Top(idV, use, f, "SetDecString")
+// identifier encodings. An encoding is the function index -> field element that a site implements; what the
+// property needs is that the split side and the recover side implement the *same* injective function (Lagrange
+// interpolation at other points than the ones the shares were evaluated at gives another polynomial).
+const (
+	c08IDSetters = "SetDecString|SetHexString|SetLittleEndian|SetLittleEndianMod"
+	c08EncIdent  = "the integer value of the index"
+)
+
+type c08EncSite struct {
+	Fn  string
+	Enc string
+	Pos token.Pos
+}
+
+// c08Rendered: call renders an integer as a string of digits in a constant base; returns the base and the integer.
+func c08Rendered(call *ssa.Call) (base int64, arg ssa.Value, ok bool) {
+	switch an.CalleeName(&call.Call) {
+	case "strconv.Itoa":
+		return 10, call.Call.Args[0], true
+	case "strconv.FormatInt", "strconv.FormatUint":
+		if b, isK := an.ConstInt(call.Call.Args[1]); isK {
+			return b, call.Call.Args[0], true
+		}
+	}
+	return 0, nil, false
+}
+
+// c08ByteLit: v is the byte slice literal []byte{byte(x), byte(x >> 8), ..} (little endian, n bytes) of one integer x.
+func c08ByteLit(v ssa.Value, f *c08Frame) (x c08Lin, n int64, ok bool) {
+	sl, isSl := an.Resolve(v).(*ssa.Slice)
+	if !isSl || sl.Low != nil || sl.High != nil {
+		return x, 0, false
+	}
+	al, isAl := sl.X.(*ssa.Alloc)
+	if !isAl {
+		return x, 0, false
+	}
+	arr, isArr := al.Type().Underlying().(*types.Pointer).Elem().Underlying().(*types.Array)
+	if !isArr || arr.Len() < 1 || arr.Len() > 8 {
+		return x, 0, false
+	}
+	n = arr.Len()
+	seen := map[int64]bool{}
+	for _, ref := range *al.Referrers() {
+		switch r := ref.(type) {
+		case *ssa.DebugRef:
+		case *ssa.Slice:
+			if r != sl {
+				return x, 0, false
+			}
+		case *ssa.IndexAddr:
+			k, isK := an.ConstInt(r.Index)
+			if !isK || seen[k] || r.Referrers() == nil || len(*r.Referrers()) != 1 {
+				return x, 0, false
+			}
+			st, isSt := (*r.Referrers())[0].(*ssa.Store)
+			if !isSt || st.Addr != ssa.Value(r) {
+				return x, 0, false
+			}
+			conv, isConv := st.Val.(*ssa.Convert)
+			if !isConv {
+				return x, 0, false
+			}
+			if bits, narrow := c08Narrowing(conv); !narrow || bits != 8 {
+				return x, 0, false
+			}
+			src := conv.X
+			if k > 0 {
+				sh, isSh := c08Resolve(src).(*ssa.BinOp)
+				if !isSh || sh.Op != token.SHR {
+					return x, 0, false
+				}
+				if by, isK := an.ConstInt(sh.Y); !isK || by != 8*k {
+					return x, 0, false
+				}
+				src = sh.X
+			}
+			lin := c08LinOf(src, f)
+			if len(seen) > 0 && !c08LinEq(lin, x) {
+				return x, 0, false
+			}
+			x = lin
+			seen[k] = true
+		default:
+			return x, 0, false
+		}
+	}
+	if int64(len(seen)) != n {
+		return x, 0, false
+	}
+	return x, n, true
+}
+
+// c08DecID resolves bls.ID operand idV, as used by `use` in frame f, to the encoding of an integer x with a checked
+// error (SetDecString(strconv.Itoa(x)) or an equivalent spelling), records the encoding of the site in encs and
+// returns x as base+constant. ok is false when the finding was recorded.
+func c08DecID(c *rt.Ctx, construct string, idV ssa.Value, use ssa.Instruction, f *c08Frame, encs *[]c08EncSite) (c08Lin, bool) {
+	res := c08Top(idV, use, f, c08IDSetters)
 	switch res.St {
 	case "bad":
 		c.Bad(construct, posOf(use), "share identifier: "+res.Why)
@@ -863,31 +1127,87 @@ func c08DecID(c *rt.Ctx, construct string, idV ssa.Value, use ssa.Instruction, f
 		return c08Lin{}, false
 	}
 	w := res.P.W
+	_, setter, _ := c08BLSMethod(&w.Call)
 	if len(w.Call.Args) != 2 {
-		c.Unsure(construct, w.Pos(), "SetDecString: unexpected arity")
+		c.Unsure(construct, w.Pos(), setter+": unexpected arity")
 		return c08Lin{}, false
 	}
-	conv, ok := an.Resolve(w.Call.Args[1]).(*ssa.Call)
-	if !ok {
-		c.Unsure(construct, w.Pos(), "the decimal string of the identifier is not produced by a call this rule knows")
-		return c08Lin{}, false
-	}
-	switch an.CalleeName(&conv.Call) {
-	case "strconv.Itoa":
-		return c08LinOf(conv.Call.Args[0], res.P.F), true
-	case "strconv.FormatInt", "strconv.FormatUint":
-		if b, ok := an.ConstInt(conv.Call.Args[1]); ok && b == 10 {
-			return c08LinOf(conv.Call.Args[0], res.P.F), true
+	who := strings.TrimSuffix(strings.SplitN(construct, " ", 2)[0], " ")
+	note := func(enc string) {
+		if encs != nil {
+			*encs = append(*encs, c08EncSite{who, enc, w.Pos()})
 		}
-		if _, ok := an.ConstInt(conv.Call.Args[1]); ok {
-			c.Bad(construct, w.Pos(), "the identifier string handed to SetDecString is not rendered in base 10")
-		} else {
+	}
+	switch setter {
+	case "SetDecString", "SetHexString":
+		parse := int64(10)
+		if setter == "SetHexString" {
+			parse = 16
+		}
+		conv, ok := an.Resolve(w.Call.Args[1]).(*ssa.Call)
+		if !ok {
+			c.Unsure(construct, w.Pos(), "the digit string of the identifier is not produced by a call this rule knows")
+			return c08Lin{}, false
+		}
+		render, arg, ok := c08Rendered(conv)
+		switch {
+		case !ok && (an.CalleeName(&conv.Call) == "strconv.FormatInt" || an.CalleeName(&conv.Call) == "strconv.FormatUint"):
 			c.Unsure(construct, w.Pos(), "the base of the identifier string is not a constant")
+			return c08Lin{}, false
+		case !ok:
+			c.Unsure(construct, w.Pos(), "the digit string of the identifier is produced by "+an.CalleeName(&conv.Call)+", which this rule does not model")
+			return c08Lin{}, false
+		case render == parse:
+			note(c08EncIdent)
+		case render > parse:
+			// digits the parser does not know: the setter fails for indices >= parse
+			c.Bad(construct, w.Pos(), fmt.Sprintf("the identifier string handed to %s is rendered in base %d", setter, render))
+			return c08Lin{}, false
+		default:
+			// every string is accepted, but names another number: positively a different function of the index
+			note(fmt.Sprintf("the base-%d digits of the index read as a base-%d number", render, parse))
 		}
+		return c08LinOf(arg, res.P.F), true
+	default: // SetLittleEndian, SetLittleEndianMod
+		x, n, ok := c08ByteLit(w.Call.Args[1], res.P.F)
+		if !ok {
+			c.Unsure(construct, w.Pos(), "the bytes handed to "+setter+" are not a literal of the bytes of one integer, which is all this rule models")
+			return c08Lin{}, false
+		}
+		if n >= 8 {
+			note(c08EncIdent)
+			return x, true
+		}
+		note(fmt.Sprintf("the low %d bits of the index", 8*n))
+		c.Bad(construct, w.Pos(), fmt.Sprintf("the index is truncated to %d bits before it becomes the identifier: indices that differ by a multiple of 2^%d get the same identifier, so a share filed under a wrong index is combined as if it were the right one", 8*n, 8*n))
 		return c08Lin{}, false
 	}
-	c.Unsure(construct, w.Pos(), "the decimal string of the identifier is produced by "+an.CalleeName(&conv.Call)+", which this rule does not model")
-	return c08Lin{}, false
+}
+
+// c08EncAgree: every function that turns a share index into a bls.ID implements the same function. The reference is
+// what most sites do (the plain integer value on a tie); a site that positively implements another function is a
+// defect: the share stored under index i was evaluated at one point and is interpolated at another.
+func c08EncAgree(c *rt.Ctx, encs []c08EncSite) {
+	cons := "share identifier encoding agrees between split and recover"
+	count := map[string]int{}
+	for _, e := range encs {
+		count[e.Enc]++
+	}
+	ref := ""
+	for enc, n := range count {
+		if ref == "" || n > count[ref] || (n == count[ref] && (enc == c08EncIdent || (ref != c08EncIdent && enc < ref))) {
+			ref = enc
+		}
+	}
+	for _, e := range encs {
+		if e.Enc == ref {
+			c.Good(cons, e.Pos, e.Fn+": "+e.Enc)
+			continue
+		}
+		c.Bad(cons, e.Pos, fmt.Sprintf("%s makes the identifier from %s, %d sibling function(s) of split/recover/aggregate from %s: "+
+			"a share stored under index i is evaluated at one point and interpolated at another as soon as the two differ, so subsets containing such an index recover a wrong secret / key / signature",
+			e.Fn, e.Enc, count[ref], ref))
+	}
 }
 
 // c08ParamsOf returns the parameters of fn whose type satisfies pred, in order.
@@ -1109,7 +1429,7 @@ func c08NilErrReturns(fn *ssa.Function) []c09Ret {
 	return out
 }
 
-func c08Split(c *rt.Ctx, name string) {
+func c08Split(c *rt.Ctx, name string, encs *[]c08EncSite) {
 	fn := c.Fn("tbls.Herumi." + name)
 	pre := name + " "
 	uints := c08ParamsOf(fn, c08IsUint)
@@ -1147,12 +1467,12 @@ func c08Split(c *rt.Ctx, name string) {
 			continue
 		}
 		// (1) the stored share is the serialisation of a key evaluated by Set, error checked
-		recv := c08SerializedRecv(up.Value)
-		if recv == nil {
-			c.Unsure(pre+"stored share is the evaluated key", posOf(up), "stored value is not the serialisation of a herumi key")
+		recv, at, rf0, st, why := c08Serialized(up.Value, up, nil, 0)
+		if st != "ok" {
+			c08Record(c, pre+"stored share is the evaluated key", posOf(up), st, "stored share: "+why)
 			continue
 		}
-		sk := c08Top(recv, up, nil, "Set")
+		sk := c08Top(recv, at, rf0, "Set")
 		c08Record(c, pre+"stored share is the evaluated key", posOf(up), sk.St, sk.Why)
 		if sk.St != "ok" {
 			continue
@@ -1162,15 +1482,15 @@ func c08Split(c *rt.Ctx, name string) {
 			c.Bail("%s: bls.SecretKey.Set: unexpected arity", an.FuncName(fn))
 		}
 		// (2) identifier = Itoa(share-loop counter + constant), values 1..total, share stored under it
-		c08SplitIDs(c, pre, fn, up, set, sf, total, threshold)
+		c08SplitIDs(c, pre, fn, up, set, sf, total, threshold, encs)
 		// (3) polynomial: `threshold` coefficients, constant term the secret, never overwritten
 		c08SplitPoly(c, pre, fn, set, sf, total, threshold, secret)
 	}
 }
 
-func c08SplitIDs(c *rt.Ctx, pre string, fn *ssa.Function, up *ssa.MapUpdate, set *ssa.Call, sf *c08Frame, total, threshold *ssa.Parameter) {
+func c08SplitIDs(c *rt.Ctx, pre string, fn *ssa.Function, up *ssa.MapUpdate, set *ssa.Call, sf *c08Frame, total, threshold *ssa.Parameter, encs *[]c08EncSite) {
 	cons := pre + "identifier is the loop variable"
-	x, ok := c08DecID(c, cons, set.Call.Args[2], set, sf)
+	x, ok := c08DecID(c, cons, set.Call.Args[2], set, sf, encs)
 	if !ok {
 		return
 	}
@@ -1520,6 +1840,18 @@ type c08Put struct {
 	Elem ssa.Value       // the element value
 	At   ssa.Instruction // the append call / the store
 	Pred int             // append form: index of the back edge (predecessor of the header) that carries it
+	Key  string          // append form: the path of the iteration that carries it: back edge, then the edges of the merges inside the body
+}
+
+// c08Skip is a path of an iteration that leaves an accumulated list unchanged.
+type c08Skip struct {
+	Pred int
+	Key  string
+}
+
+// c08KeysCompatible: two iteration paths are the same path or one refines the other.
+func c08KeysCompatible(a, b string) bool {
+	return a == b || strings.HasPrefix(a, b+"/") || strings.HasPrefix(b, a+"/")
 }
 
 // c08Fill describes how a list is filled by one loop.
@@ -1531,7 +1863,7 @@ type c08Fill struct {
 	Make  *ssa.MakeSlice // index form
 	Index ssa.Value      // index form: the index expression of the single store
 	Puts  []c08Put       // append form: one per back edge that appends; index form: the single store
-	Skips []int          // append form: back edges that leave the list unchanged
+	Skips []c08Skip      // append form: iteration paths that leave the list unchanged
 	Odd   string         // a back edge / use that is not understood (=> undecided)
 	Start bool           // append form: the list is empty when the loop starts
 }
@@ -1553,16 +1885,27 @@ func c08FillOf(fn *ssa.Function, v ssa.Value) *c08Fill {
 				}
 				continue
 			}
-			if e == ssa.Value(phi) {
-				fl.Skips = append(fl.Skips, j)
-				continue
-			}
-			ap, elems := c08IsAppendTo(e, phi)
-			if ap == nil || len(elems) != 1 {
+			// the value on a back edge is the accumulator itself (iteration skipped), append(accumulator, x), or a merge
+			// of such values inside the body (`if .. { continue }` of a three-clause loop merges in the post block)
+			var expand func(e ssa.Value, key string, d int)
+			expand = func(e ssa.Value, key string, d int) {
+				if e == ssa.Value(phi) {
+					fl.Skips = append(fl.Skips, c08Skip{j, key})
+					return
+				}
+				if ap, elems := c08IsAppendTo(e, phi); ap != nil && len(elems) == 1 {
+					fl.Puts = append(fl.Puts, c08Put{Elem: elems[0], At: ap, Pred: j, Key: key})
+					return
+				}
+				if m, ok := e.(*ssa.Phi); ok && m != phi && d < 4 && l.Body[m.Block()] && c08LoopAt(fn, m.Block()) == nil {
+					for k, me := range m.Edges {
+						expand(me, fmt.Sprintf("%s/%d.%d", key, m.Block().Index, k), d+1)
+					}
+					return
+				}
 				fl.Odd = "a back edge of the loop does not carry append(list, one element)"
-				continue
 			}
-			fl.Puts = append(fl.Puts, c08Put{Elem: elems[0], At: ap, Pred: j})
+			expand(e, fmt.Sprint(j), 0)
 		}
 		return fl
 	}
@@ -1830,7 +2173,7 @@ func c08Descend(fn *ssa.Function, consume ssa.Instruction, input ssa.Value, list
 // ---------------------------------------------------------------------------------------------
 // S1: recover side
 
-func c08Recover(c *rt.Ctx, name, typ string) {
+func c08Recover(c *rt.Ctx, name, typ string, encs *[]c08EncSite) {
 	fn := c.Fn("tbls.Herumi." + name)
 	pre := name + " "
 	maps := c08ParamsOf(fn, an.IsMapType)
@@ -1851,12 +2194,12 @@ func c08Recover(c *rt.Ctx, name, typ string) {
 		if len(r.Vals) != 2 || r.Vals[0] == nil {
 			c.Bail("%s: unexpected results", an.FuncName(fn))
 		}
-		recv := c08SerializedRecv(r.Vals[0])
-		if recv == nil {
-			c.Unsure(cons, posOf(r.Ret), "the value returned with a nil error is not the serialisation of a herumi value")
+		recv, at, rf0, st, why := c08Serialized(r.Vals[0], r.Sink[0], nil, 0)
+		if st != "ok" {
+			c08Record(c, cons, posOf(r.Ret), st, "the value returned with a nil error: "+why)
 			continue
 		}
-		res := c08Top(recv, r.Sink[0], nil, "Recover")
+		res := c08Top(recv, at, rf0, "Recover")
 		c08Record(c, cons, posOf(r.Ret), res.St, res.Why)
 		if res.St == "ok" {
 			if rec != nil && rec != res.P.W {
@@ -1895,37 +2238,50 @@ func c08Recover(c *rt.Ctx, name, typ string) {
 		c.Unsure(pair, rec.Pos(), "the two lists handed to Recover are not filled by one loop")
 		return
 	}
+	l := fv.Loop
+	used := pre + "every input share is used"
+	// which keys does the filling loop visit? The keys of the input are an arbitrary subset of 1..total, so the loop
+	// has to take them from the map. (Decided before the shape of the appends: it does not depend on it.)
+	keyV, valV, isRange := c08MapRange(l, input)
+	if !isRange {
+		for _, b := range lfn.Blocks {
+			if !l.Body[b] {
+				continue
+			}
+			for _, in := range b.Instrs {
+				lk, ok := in.(*ssa.Lookup)
+				if !ok || an.Resolve(lk.X) != ssa.Value(input) {
+					continue
+				}
+				ct, off, _ := c08IndexForm(lk.Index, nil)
+				if ct == nil || ct.Loop.Header != l.Header {
+					continue
+				}
+				// a counter that runs up to `total` and skips absent keys visits every possible key
+				if rng, ok := c08CounterRange(ct, off); ok && lk.CommaOk && lfn == fn && !rng.Hi.isConst() && rng.Hi.Base.F == nil {
+					if uints := c08ParamsOf(fn, c08IsUint); len(uints) == 2 && rng.Hi.Base.V == ssa.Value(uints[0]) && rng.Hi.K >= 0 {
+						c.Unsure(used, lk.Pos(), "the shares are fetched by a counter up to total, skipping absent keys: cannot tell that no key lies above total")
+						return
+					}
+				}
+				c.Bad(used, lk.Pos(), "the shares are fetched by a counter (input[i] for a range of i fixed by a length or the threshold) instead of ranging over the map: "+
+					"the keys are an arbitrary subset of 1..total, so a subset with a gap or with identifiers above the bound is combined from fewer (or zero-valued) shares and recovers a wrong result")
+				return
+			}
+		}
+		c.Unsure(used, rec.Pos(), "the filling loop does not range over the input map")
+		return
+	}
 	if fv.Odd != "" || fi.Odd != "" {
 		c.Unsure(pair, rec.Pos(), fv.Odd+fi.Odd)
 		return
 	}
-	l := fv.Loop
-	used := pre + "every input share is used"
 	if (fv.Early || fi.Early) && c08ExitReaches(l, consume) != nil {
 		c.Bad(used, rec.Pos(), "the loop over the input shares can be left early towards Recover: only a prefix (in random map order) is combined")
 		return
 	}
 	if l.Body[consume.Block()] || !l.Header.Dominates(consume.Block()) {
 		c.Unsure(pair, rec.Pos(), "Recover is not executed after the filling loop")
-		return
-	}
-	keyV, valV, isRange := c08MapRange(l, input)
-	if !isRange {
-		// a counting loop that reads input[counter] assumes the share identifiers are exactly 1..len(input):
-		// any subset with a gap silently uses zero values / skips real shares and recovers a wrong result
-		for b := range l.Body {
-			for _, in := range b.Instrs {
-				lk, ok := in.(*ssa.Lookup)
-				if !ok || an.Resolve(lk.X) != ssa.Value(input) {
-					continue
-				}
-				if ct, _, _ := c08IndexForm(lk.Index, nil); ct != nil && ct.Loop.Header == l.Header {
-					c.Bad(used, lk.Pos(), "the shares are fetched by a counter (input[i] for i = 1..len) instead of ranging over the map: identifiers are assumed contiguous from 1, subsets with gaps combine zero values under wrong identifiers")
-					return
-				}
-			}
-		}
-		c.Unsure(used, rec.Pos(), "the filling loop does not range over the input map")
 		return
 	}
 	if b := c08ExitReaches(l, consume); b != nil {
@@ -1942,29 +2298,28 @@ func c08Recover(c *rt.Ctx, name, typ string) {
 		if !fv.Start || !fi.Start {
 			c.Unsure(pair, rec.Pos(), "the lists are not empty when the loop starts")
 		}
-		putOf := func(f *c08Fill, j int) *c08Put {
-			for k := range f.Puts {
-				if f.Puts[k].Pred == j {
-					return &f.Puts[k]
+		// on every path of an iteration (back edge + merges inside the body) both lists are extended or neither is
+		lone := func(puts []c08Put, skips []c08Skip) {
+			for _, p := range puts {
+				for _, sk := range skips {
+					if c08KeysCompatible(p.Key, sk.Key) {
+						c.Bad(pair, p.At.Pos(), "an iteration can extend one of the two lists without the other: every later identifier is paired with the wrong share")
+					}
 				}
 			}
-			return nil
 		}
-		for j, pred := range l.Header.Preds {
-			if !l.Body[pred] {
-				continue
+		lone(fv.Puts, fi.Skips)
+		lone(fi.Puts, fv.Skips)
+		for _, pv := range fv.Puts {
+			for _, pi := range fi.Puts {
+				if c08KeysCompatible(pv.Key, pi.Key) {
+					c.Good(pair, pv.At.Pos(), "")
+					pairs = append(pairs, pairPut{pv, pi})
+				}
 			}
-			pv, pi := putOf(fv, j), putOf(fi, j)
-			pos := posOf(pred.Instrs[len(pred.Instrs)-1])
-			switch {
-			case pv == nil && pi == nil:
-				// iteration skipped for both lists alike
-			case pv == nil || pi == nil:
-				c.Bad(pair, pos, "an iteration can extend one of the two lists without the other: every later identifier is paired with the wrong share")
-			default:
-				c.Good(pair, pos, "")
-				pairs = append(pairs, pairPut{*pv, *pi})
-			}
+		}
+		if len(fv.Puts) == 0 || len(fi.Puts) == 0 {
+			c.Unsure(pair, rec.Pos(), "no iteration of the filling loop extends the lists")
 		}
 	case "index":
 		pv, pi := fv.Puts[0], fi.Puts[0]
@@ -1992,7 +2347,7 @@ func c08Recover(c *rt.Ctx, name, typ string) {
 		// identifier
 		cons := pre + "identifier is the map key"
 		var idKey c08Val // the key the identifier is rendered from
-		if x, ok := c08DecID(c, cons, pp.i.Elem, pp.i.At, nil); ok {
+		if x, ok := c08DecID(c, cons, pp.i.Elem, pp.i.At, nil, encs); ok {
 			switch {
 			case !x.isConst() && x.K == 0 && x.Base.F == nil && x.Base.V == keyV && keyV != nil:
 				c.Good(cons, pp.i.At.Pos(), "SetDecString(strconv.Itoa(key)) of the ranged map key, error checked")
@@ -2481,7 +2836,7 @@ func c08VerifyGate(c *rt.Ctx, name, libFn string) {
 		if len(pkP) != 1 {
 			c.Bail("%s: expected one PublicKey parameter", an.FuncName(fn))
 		}
-		res := c08Top(gate.Call.Args[1], gate, nil, "Deserialize")
+		res := c08TopM(gate.Call.Args[1], gate, nil, "Deserialize")
 		if res.St != "ok" {
 			c08Record(c, cons, gate.Pos(), res.St, res.Why)
 			return
@@ -2492,6 +2847,7 @@ func c08VerifyGate(c *rt.Ctx, name, libFn string) {
 			c.Unsure(cons, gate.Pos(), "cannot resolve the bytes the public key is deserialised from")
 		case src.F == nil && src.V == ssa.Value(pkP[0]) && full:
 			c.Good(cons, gate.Pos(), "")
+			c08MemoReport(c, cons, res, src)
 		case src.F == nil && (src.V == ssa.Value(pkP[0]) || c08IsParam(src.V)):
 			c.Bad(cons, gate.Pos(), "the public key checked against is not deserialised from the whole public key parameter")
 		default:
@@ -2540,8 +2896,8 @@ func c08VerifyGate(c *rt.Ctx, name, libFn string) {
 		if !fl.Start {
 			c.Unsure(cons, gate.Pos(), "the key list is not empty when the loop starts")
 		}
-		for _, j := range fl.Skips {
-			pred := l.Header.Preds[j]
+		for _, sk := range fl.Skips {
+			pred := l.Header.Preds[sk.Pred]
 			c.Bad(cons, posOf(pred.Instrs[len(pred.Instrs)-1]), "an iteration can skip its public key: the aggregate is verified against a subset of the given keys")
 		}
 	case "index":
@@ -2558,7 +2914,7 @@ func c08VerifyGate(c *rt.Ctx, name, libFn string) {
 		}
 	}
 	for _, put := range fl.Puts {
-		res := c08Top(put.Elem, put.At, nil, "Deserialize")
+		res := c08TopM(put.Elem, put.At, nil, "Deserialize")
 		if res.St != "ok" {
 			c08Record(c, cons, put.At.Pos(), res.St, res.Why)
 			continue
@@ -2569,6 +2925,7 @@ func c08VerifyGate(c *rt.Ctx, name, libFn string) {
 			c.Unsure(cons, put.At.Pos(), "cannot resolve the bytes the public key is deserialised from")
 		case src.F == nil && full && l.ElemOf(src.V):
 			c.Good(cons, put.At.Pos(), "")
+			c08MemoReport(c, cons, res, src)
 		case src.F == nil && !full && l.ElemOf(src.V):
 			c.Bad(cons, put.At.Pos(), "the key appended is not deserialised from the whole element of this iteration")
 		default:
